@@ -60,6 +60,49 @@ def check_append(prefix, cfg):
     return None
 
 
+def check_attempts(attempts, interleave=False):
+    """a manager driven through the public methods only: append attempts (valid or not), then next() until exhausted"""
+    inp = {"append_attempts": [list(a) for a in attempts], "next_after_each_append": interleave}
+    m = EpochManager([])
+    acc, handed, t = [], 0, 0
+
+    def take():
+        nonlocal handed, t
+        st = m.next()
+        c = acc[handed]
+        got = (st.nth_epoch, st.time, st.time_before_epoch, st.time_in_epoch, int(st.config.type), st.config.duration, st.config.thinning)
+        want = (handed, t, t, 0, c[0], c[1], c[2])
+        handed += 1
+        t += c[1]
+        return None if got == want else {"sig": "native::attempts::state", "what": f"epoch state (index, time, start, time in epoch, type, duration, thinning) {got} != {want} "
+                                         "after a history with rejected appends", "input": inp}
+
+    for cfg in attempts:
+        want = valid_py(acc + [cfg])
+        try:
+            m.append(mk(cfg))
+            got = True
+        except RuntimeError:
+            got = False
+        if got != want:
+            return {"sig": "native::attempts::accept_iff_valid", "what": f"append of {cfg} accepted={got} but Valid={want}", "input": inp}
+        if got:
+            acc.append(cfg)
+        if interleave and handed < len(acc):
+            v = take()
+            if v:
+                return v
+    while handed < len(acc):
+        if not m.has_more():
+            return {"sig": "native::attempts::has_more", "what": "has_more false although accepted epochs remain", "input": inp}
+        v = take()
+        if v:
+            return v
+    if m.has_more():
+        return {"sig": "native::attempts::has_more", "what": "has_more true after exhaustion", "input": inp}
+    return None
+
+
 def check_next(seq):
     m = EpochManager([mk(c) for c in seq])
     t = 0
@@ -181,6 +224,22 @@ def bounded(tier, seed):
             distinct += 1
             if valid_py(prefix + [c]):
                 stack.append(prefix + [c])
+    # histories with rejected append attempts, observed through next() only
+    n_att = 300 if tier == "quick" else 6000
+    for _ in range(n_att):
+        att, acc = [], []
+        for _k in range(rng.randint(2, 5)):
+            if rng.random() < 0.45:
+                cfg = rng.choice(cands)
+            else:
+                good = [c_ for c_ in rng.sample(cands, 25) if valid_py(acc + [c_])]
+                cfg = good[0] if good else rng.choice(cands)
+            att.append(cfg)
+            if valid_py(acc + [cfg]):
+                acc.append(cfg)
+        add(check_attempts(att, interleave=rng.random() < 0.5))
+        evals += 1
+    distinct += n_att
     samples.append({"append": {"prefix": [(0, 1, 1), (2, 3, 2)], "config": (4, 2, 2)}})
     # stan_epochs grid + random
     grid = []
@@ -222,7 +281,7 @@ def bounded(tier, seed):
         "distinct_nontrivial": distinct,
         "rule": (f"BOUNDED: every valid schedule prefix of <= {L} epochs over type 0..4 x duration 0..3 x thinning 0..3 "
                  f"({n_prefix} prefixes; quick tier samples 1/4 of the deepest layer) x every candidate append; next() on every prefix; "
-                 f"stan_epochs on {len(grid)} argument tuples (grid + seeded random, seed={seed}); builder chunk on {len(scheds)} real builds. "
+                 f"{n_att} seeded histories of 2-5 append attempts (valid and invalid mixed, optionally a next() after each) observed through next()/has_more() only; stan_epochs on {len(grid)} argument tuples (grid + seeded random, seed={seed}); builder chunk on {len(scheds)} real builds. "
                  "A case is counted once per distinct (prefix, config) / argument tuple / schedule."),
         "samples": samples,
         "exhaustive": tier != "quick",
@@ -243,6 +302,9 @@ def replay(unit_id, obligation, model):
                 return None
             c = model["config"]
             return check_append(prefix, (int(c["type"]), int(c["duration"]), int(c["thinning"])))
+        if unit_id.startswith("C16.observable") and all(f"c{i}" in model for i in range(3)):
+            att = [(int(model[f"c{i}"]["type"]), int(model[f"c{i}"]["duration"]), int(model[f"c{i}"]["thinning"])) for i in range(3)]
+            return check_attempts(att, interleave=unit_id.endswith("interleaved"))
         if unit_id == "C16.next" and "configs" in model:
             seq = _seq_from_model(model["configs"])
             if model["configs"]["len"] != len(seq) or not valid_py(seq):
